@@ -7,6 +7,9 @@ Case kinds (first token of the protocol line; see hooks/banyand/internal/verifdr
   topq     measure.TopQueue
   tsidx    banyand/trace streamSIDXTraceBatches: k-way merge of the ordered streams of 1-4 real sidx instances (+ trace-id de-dup)
   slimit   stream row-path plan limit -> localIndexScan over a paged storage result (offset/limit across pulls)
+  djp      getDisjointParts (stream and trace copies) on bare part time ranges
+  squery   banyand/stream time-ordered scan of one segment: real mem parts -> getDisjointParts -> blockScanner -> tsResult.Pull
+  miq      measure index-mode ordered query over a real multi-segment TSDB (buildIndexQueryResult/segResultHeap/indexSortResult)
   mqr      banyand/measure queryResult (heap of block cursors over real mem parts; order by time asc/desc or by series)
   sidx     real sidx (write/flush/merge history, StreamingQuery + QuerySync), queries OUTSIDE the F11 class
   sidxdup  same with duplicate data payloads (exercises the data-level de-duplication)
@@ -370,6 +373,153 @@ def slimit_oracle(line, g):
     return None
 
 
+def gen_ranges(rng):
+    """part time ranges with nesting, touching and disjoint layouts"""
+    n = rng.choice([1, 2, 3, 3, 4, 5, 7])
+    style = rng.choice(["nested", "nested", "random", "chain", "disjoint"])
+    rs = []
+    if style == "nested":
+        base = rng.randint(1, 50)
+        wide = (base, base + rng.randint(20, 200))
+        rs.append(wide)
+        for _ in range(n - 1):
+            r = rng.random()
+            if r < 0.5:      # inside the wide part
+                a = rng.randint(wide[0], wide[1])
+                rs.append((a, rng.randint(a, wide[1])))
+            elif r < 0.8:    # starts inside, may end outside
+                a = rng.randint(wide[0], wide[1])
+                rs.append((a, a + rng.randint(0, 150)))
+            else:            # after it
+                a = wide[1] + rng.randint(0, 60)
+                rs.append((a, a + rng.randint(0, 40)))
+    elif style == "random":
+        for _ in range(n):
+            a = rng.randint(1, 60)
+            rs.append((a, a + rng.choice([0, 0, 1, 5, 30])))
+    elif style == "chain":
+        a = rng.randint(1, 10)
+        for _ in range(n):
+            b = a + rng.randint(0, 10)
+            rs.append((a, b))
+            a = b + rng.choice([0, 0, 1, -3])
+            a = max(1, a)
+    else:
+        a = rng.randint(1, 10)
+        for _ in range(n):
+            b = a + rng.randint(0, 10)
+            rs.append((a, b))
+            a = b + rng.randint(1, 20)
+    rng.shuffle(rs)
+    return rs
+
+
+def gen_djp(rng):
+    rs = gen_ranges(rng)
+    return "djp %s %s %s" % (rng.choice(["stream", "trace"]), rng.choice(["asc", "desc"]), ",".join("%d:%d" % r for r in rs))
+
+
+def gen_squery(rng):
+    rs = gen_ranges(rng)[:5]
+    nser = rng.choice([1, 1, 2, 3])
+    parts = []
+    for lo, hi in rs:
+        tss = {lo, hi} | {rng.randint(lo, hi) for _ in range(rng.choice([0, 1, 3, 6]))}
+        rows = [(rng.randint(1, nser), t) for t in tss]
+        rng.shuffle(rows)
+        parts.append(",".join("%d:%d" % r for r in rows))
+    alo, ahi = min(r[0] for r in rs), max(r[1] for r in rs)
+    if rng.random() < 0.6:
+        lo, hi = 0, ahi + 1000
+    else:
+        a, b = rng.randint(alo, ahi), rng.randint(alo, ahi)
+        lo, hi = min(a, b), max(a, b)
+    sids = rng.sample(range(1, nser + 2), rng.randint(1, nser + 1))
+    return "squery %s %d %d 1000 %s %s" % (rng.choice(["asc", "desc"]), lo, hi, "+".join(map(str, sorted(sids))), "|".join(parts))
+
+
+def gen_miq(rng):
+    names = "abcdefgh"[:rng.choice([2, 4, 6, 8])]
+    val = {n: rng.randint(1, rng.choice([3, 10, 100])) * 5 for n in names}
+    nseg = rng.choice([1, 2, 2, 3])
+    segs = []
+    for _ in range(nseg):
+        ns = rng.sample(names, rng.randint(1, len(names)))
+        segs.append(",".join("%s:%d" % (n, val[n]) for n in ns))
+    return "miq %s %s %s" % (rng.choice(["asc", "desc"]), rng.choice(["ent", "ent", "fld"]), "|".join(segs))
+
+
+def interval_groups(ranges):
+    """connected components of the overlap relation (touching counts), in time order"""
+    out = []
+    for lo, hi in sorted(ranges):
+        if out and lo <= out[-1][1]:
+            out[-1][1] = max(out[-1][1], hi)
+        else:
+            out.append([lo, hi])
+    return out
+
+
+def djp_oracle(line, g):
+    f = line.split()
+    desc = f[2] == "desc"
+    rs = [tuple(map(int, x.split(":"))) for x in f[3].split(",")]
+    groups = [[int(x) for x in grp.split(",")] for grp in g.split("/")] if g != "-" else []
+    ids = [i for grp in groups for i in grp]
+    if sorted(ids) != list(range(1, len(rs) + 1)):
+        return ("violation", "djp: groups %s are not a partition of the %d parts" % (groups, len(rs)))
+    spans = [(min(rs[i - 1][0] for i in grp), max(rs[i - 1][1] for i in grp)) for grp in groups]
+    if desc:
+        spans = spans[::-1]
+    for a, b in zip(spans, spans[1:]):
+        if not a[1] < b[0]:
+            return ("violation", "djp: groups overlap in time or are not in time order: spans %s" % spans)
+    return None
+
+
+def squery_oracle(line, g):
+    f = line.split()
+    desc, lo, hi = f[1] == "desc", int(f[2]), int(f[3])
+    sids = [int(x) for x in f[5].split("+")]
+    want, ranges = [], []
+    for p in f[6].split("|"):
+        rows = [tuple(map(int, r.split(":"))) for r in p.split(",")]
+        pr = (min(t for _, t in rows), max(t for _, t in rows))
+        if pr[1] < lo or pr[0] > hi:
+            continue
+        ranges.append(pr)
+        want.extend(t for s_, t in rows if s_ in sids and lo <= t <= hi)
+    got = [] if g == "-" else [int(x) for x in g.split(",")]
+    if sorted(got) != sorted(want):
+        return ("violation", "squery: %d rows returned, %d match (as multisets they differ)" % (len(got), len(want)))
+    if got != sorted(want, reverse=desc):
+        msg = "squery: timestamps of the pulled pages are not globally ordered: %s" % got[:24]
+        if desc and len(interval_groups(ranges)) >= 2:
+            return ("known", "F91", msg)
+        return ("violation", msg)
+    return None
+
+
+def miq_oracle(line, g):
+    f = line.split()
+    desc, fld = f[1] == "desc", f[2] == "fld"
+    val = {}
+    for seg in f[3].split("|"):
+        for e in seg.split(","):
+            n, v = e.split(":")
+            val[n] = int(v)
+    got = [] if g == "-" else [x.split(":") for x in g.split(",")]
+    names = [x[0] for x in got]
+    if sorted(names) != sorted(val):
+        return ("violation", "miq: series returned %s, indexed %s (each must come exactly once)" % (names, sorted(val)))
+    vals = [val[n] for n in names]
+    if not is_sorted(vals, desc):
+        return ("violation", "miq: series not in sort-key order: %s %s" % (names, vals))
+    if any(int(x[1]) != val[x[0]] for x in got) or (fld and any(len(x) < 3 or x[2] != str(val[x[0]] * 3 + 1) for x in got)):
+        return ("violation", "miq: projected values do not belong to the series: %s" % got[:6])
+    return None
+
+
 def sim_blocks(parts):
     """generator-side layout: one block per (part, series)"""
     out = []
@@ -515,6 +665,9 @@ class C09(vlib.Spec):
         "measure queryResult: series ids and timestamps >= 1 (0 is a sentinel in part.go/query.go, see C02/C03), no tag/field "
         "projection beyond one int field, no TopN options, <= 8192 rows per (part, series)",
         "limitIterator: uint32 index does not overflow",
+        "squery: MaxElementSize >= number of rows (page truncation by MaxElementSize is not modelled); the heap merge inside one "
+        "part group is abstracted as sorted in the model (tied by correspondence); timestamps >= 1",
+        "miq: a series has the same sort value in every segment; hash-free series ids from pbv1.Series.Marshal",
         "tsidx: trace ids are unique inside one sidx instance; every instance stays outside the F11 class; no errors/cancellation",
         "slimit: the storage result is a fake paged source (one page per Pull, capped at MaxElementSize) behind the real "
         "limit -> localIndexScan -> BuildElementsFromStreamResult path; element ids unique",
@@ -524,15 +677,18 @@ class C09(vlib.Spec):
             "int64 extremes), random flush/merge history, 2-6 queries each with MaxBatchSize in {0,1,2,3,7,64}, "
             "key ranges (open, inner, outside, single key), series subsets, asc/desc, through StreamingQuery and "
             "QuerySync; mmerge: 1-4 nodes with (sid,ts) duplicates of differing versions, offset/limit at 0/end/beyond; "
-            "topq: n in 1..10 over up to 30 values; tsidx: 1-4 real sidx instances (interleaving / dense duplicate / int64 extreme "
+            "topq: n in 1..10 over up to 30 values; djp/squery: 1-7 part time ranges (nested in a wide part, chains of touching "
+            "parts, disjoint, random), rows at both range ends, 1-3 series, time range clipping, asc/desc; miq: 1-3 daily "
+            "segments, 2-8 series shared between segments, duplicate sort values, entity-only and field projection; tsidx: 1-4 real sidx instances (interleaving / dense duplicate / int64 extreme "
             "keys, trace ids shared between instances, 1-2 parts each), order asc/desc/UNSPECIFIED/nil, batch sizes; slimit: an "
             "ordered sequence cut into 1-5 storage pages incl. empty ones, offset/limit at 0/end/beyond; mqr: 1-4 mem parts x 1-4 series with (series, timestamp) "
             "duplicates of versions 1-3 inside and across parts, time ranges, order by time asc/desc or by series. non-trivial = distinct case with at least two input elements")
 
     def cases(self, rng, n):
         out = []
-        mix = [("sort", 0.14), ("smerge", 0.04), ("mmerge", 0.11), ("topq", 0.06), ("mqr", 0.11), ("tsidx", 0.09),
-               ("slimit", 0.1), ("sidx", 0.18), ("sidxdup", 0.07), ("sidxf11", 0.10)]
+        mix = [("sort", 0.12), ("smerge", 0.03), ("mmerge", 0.10), ("topq", 0.05), ("mqr", 0.10), ("tsidx", 0.08),
+               ("slimit", 0.09), ("djp", 0.06), ("squery", 0.06), ("miq", 0.03), ("sidx", 0.14), ("sidxdup", 0.06),
+               ("sidxf11", 0.08)]
         for _ in range(n):
             r, acc = rng.random(), 0.0
             kind = "sidx"
@@ -553,6 +709,12 @@ class C09(vlib.Spec):
                 out.append(gen_mqr(rng))
             elif kind == "tsidx":
                 out.append(gen_tsidx(rng))
+            elif kind == "djp":
+                out.append(gen_djp(rng))
+            elif kind == "squery":
+                out.append(gen_squery(rng))
+            elif kind == "miq":
+                out.append(gen_miq(rng))
             elif kind == "slimit":
                 out.append(gen_slimit(rng))
             else:
@@ -611,6 +773,12 @@ class C09(vlib.Spec):
             return mqr_oracle(line, g)
         if kind == "tsidx":
             return tsidx_oracle(line, g)
+        if kind == "djp":
+            return djp_oracle(line, g)
+        if kind == "squery":
+            return squery_oracle(line, g)
+        if kind == "miq":
+            return miq_oracle(line, g)
         if kind == "slimit":
             return slimit_oracle(line, g)
         if kind.startswith("sidx"):
@@ -715,6 +883,11 @@ class C09(vlib.Spec):
             return True
         if kind == "topq":
             return g.startswith("PANIC") and l.startswith("PANIC")
+        if kind == "djp":
+            return [sorted(x.split(",")) for x in g.split("/")] == [sorted(x.split(",")) for x in l.split("/")]
+        if kind == "miq":
+            kf = lambda x: int(x.split(":")[1])
+            return runs_canon(g.split(","), kf, lambda x: x) == runs_canon(l.split(","), kf, lambda x: x)
         if kind == "tsidx":
             ga, la = g.split("/"), l.split("/")
             if [b.count(",") for b in ga] != [b.count(",") for b in la]:
@@ -753,6 +926,12 @@ class C09(vlib.Spec):
             return line if f[6].count(":") >= 6 else None
         if f[0] == "tsidx":
             return line if f[4].count(":") >= 2 else None
+        if f[0] == "djp":
+            return line if f[3].count(",") >= 1 else None
+        if f[0] == "squery":
+            return line if f[6].count("|") >= 1 else None
+        if f[0] == "miq":
+            return line if f[3].count(":") >= 2 else None
         if f[0] == "slimit":
             return line if f[4].count(",") >= 1 else None
         return line if line.count(":") >= 4 else None
@@ -841,6 +1020,9 @@ TIES = ["scanner_batch_tie", "max_block_length_tie", "less_by_key_tie", "thresho
 SPEC = C09()
 SPEC.theorems = ["Banyan.C09." + t for t in PROPS] + ["Banyan.Tie.C09." + t for t in TIES]
 
+PROPOSED_KNOWN_F91 = ("known: property=C09 id=F91 banyand/stream/block_scanner.go blockScanner.scan: descending time-ordered scan "
+                      "over >= 2 disjoint part groups of one segment takes the LAST group of the list getDisjointParts already "
+                      "reversed, i.e. the earliest group first (pages not globally ordered); fix proposed in fixes/F91.diff")
 PROPOSED_KNOWN = ("known: property=C09 id=F11 sidx: blocks matched > scanner batch threshold ∧ overlapping key ranges "
                   "(banyand/internal/sidx/sidx.go blockCursorHeap.merge/mergeSync drain the heap once per scanner batch; "
                   "StreamingQuery/QuerySync out of key order, QuerySync first-MaxBatchSize not the ordered top-N)")
@@ -856,5 +1038,7 @@ if os.environ.get("VERIF_C09_ASSUME_KNOWN") == "1":
         res = _orig_load_known(prop)
         if prop == "C09" and not any(k["id"] == "F11" for k in res):
             res.append({"id": "F11", "text": PROPOSED_KNOWN})
+        if prop == "C09" and not any(k["id"] == "F91" for k in res):
+            res.append({"id": "F91", "text": PROPOSED_KNOWN_F91})
         return res
     vlib.load_known = _load_known
